@@ -334,6 +334,9 @@ def run(chk, only=None):
     # ---- 3d. preconditioner
     precond_cases(chk, only, lines, handlers, viol, quick, dyn)
 
+    import os
+    if os.environ.get("C10_DUMP"):
+        open(os.environ["C10_DUMP"], "w").write("\n".join(lines) + "\n")
     outs = chk.run_driver("C10", lines)
     if outs is not None:
         for o, h in zip(outs, handlers):
@@ -608,7 +611,7 @@ def precond_cases(chk, only, lines, handlers, viol, quick, dyn):
     from linear_operator import settings
     from linear_operator.operators import (AddedDiagLinearOperator, ConstantDiagLinearOperator, DiagLinearOperator)
     rng = chk.rng
-    kclasses = ["Dense[psd]", "Toeplitz", "Kronecker", "PsdSum", "ConstantMul", "BlockDiag", "SumBatch", "Chol[lower]", "KroneckerDiag",
+    kclasses = ["Dense[psd]", "Toeplitz", "Kronecker", "PsdSum", "ConstantMul", "BlockDiag", "SumBatch", "Chol[lower]",
                 "BatchRepeat", "Sum[toeplitz+diag]", "BlockInterleaved"]
     dkinds = ["const", "const-batched", "diag-equal", "diag", "diag-batched", "diag-broadcast", "diag-mixed"]
     batches = [(), (2,)] if quick else [(), (2,), (2, 3)]
